@@ -8,10 +8,17 @@ if props is None:
         if l.strip():
             v = json.loads(l); props[v['id']] = {'title': v['title'], 'statement': v['statement'], 'quantifier': v['quantifier']['text'], 'files': v['anchors']['files']}
 out = []
+wave = os.environ.get("SEED_WAVE", "1"); sfx = "" if wave == "1" else wave
 for pid in sys.argv[1:]:
-    wt = f"/tmp/seed-{pid}"
+    wt = f"/tmp/seed{sfx}-{pid}"
     if not os.path.exists(wt):
         subprocess.check_call(['git', '-C', '/repo', 'worktree', 'add', '--detach', '-q', wt, 'HEAD'])
     p = props[pid]
-    out.append(f"--- PROPERTY {pid} (worktree: {wt}) ---\nTitle: {p['title']}\nStatement: {p['statement']}\nQuantified over: {p['quantifier']}\nCode it is anchored in: {', '.join(p['files'])}\n")
-print(open('/tmp/SEED_PROMPT.txt').read() + "\n" + "\n".join(out))
+    prev = ""
+    if wave != "1":
+        import glob
+        for mf in sorted(glob.glob(f"/verif/seeded/{pid}*/meta.json")):
+            m = json.load(open(mf))
+            prev += f"Already used for this property (yours must be in a DIFFERENT function/mechanism, not a variation of it): {m.get('summary')}\n"
+    out.append(f"--- PROPERTY {pid} (worktree: {wt}) ---\nTitle: {p['title']}\nStatement: {p['statement']}\nQuantified over: {p['quantifier']}\nCode it is anchored in: {', '.join(p['files'])}\n{prev}")
+print(open('/tmp/SEED_PROMPT.txt').read().replace('/tmp/seed-*', f'/tmp/seed{sfx}-*') + "\n" + "\n".join(out))
